@@ -524,8 +524,12 @@ def evalE : Nat → FE → Ctx → St → Res V
         | r => r
       | r => r
     | .set o p e1 =>
+      -- §11.13.1 step 1 evaluates the left-hand side, i.e. §11.2.1 including CheckObjectCoercible
+      -- (step 5), BEFORE the right-hand side runs
       match evalE n o c σ with
-      | .ok b σ1 => match evalE n e1 c σ1 with
+      | .ok b σ1 =>
+        if b == .undef || b == .null then throwErr σ1 "TypeError" else
+        match evalE n e1 c σ1 with
         | .ok v σ2 => match putProp σ2 b p v with
           | .ok _ σ3 => .ok v σ3
           | .throw t σ3 => .throw t σ3
@@ -533,9 +537,12 @@ def evalE : Nat → FE → Ctx → St → Res V
         | r => r
       | r => r
     | .setE o k e1 =>
+      -- §11.2.1: base value, property name value, then CheckObjectCoercible; then the right-hand side
       match evalE n o c σ with
       | .ok b σ1 => match evalE n k c σ1 with
-        | .ok kv σ2 => match evalE n e1 c σ2 with
+        | .ok kv σ2 =>
+          if b == .undef || b == .null then throwErr σ2 "TypeError" else
+          match evalE n e1 c σ2 with
           | .ok v σ3 => match putProp σ3 b (toStr kv) v with
             | .ok _ σ4 => .ok v σ4
             | .throw t σ4 => .throw t σ4
